@@ -3,6 +3,7 @@
 -/
 import Props.Writer
 import Props.C18
+import Props.ImageClass
 namespace Slinky.C10
 open Slinky W
 
@@ -139,5 +140,52 @@ theorem class_sizes (cx : Ctx) (em : List Str) :
   · intro n
     simp only [List.mem_filter, mem_dedup, List.mem_map, decide_eq_true_eq]
   · exact List.Nodup.sublist List.filter_sublist (nodup_dedup _)
+
+
+/-! ### in the linked image (the linker semantics `Slinkyv.Ld`) -/
+
+open Ld in
+/-- **C10, image clause for the class start**: linking the class prologue (written in front of
+the first emitted member) leaves in the class start symbol the `fixed_vram` value, the value of
+the `fixed_symbol`, or the largest value among the end symbols of the classes it follows, and
+0 in the class end symbol. -/
+theorem image_class_prologue (objs : List InSec) (cx : Ctx) (cname : Str) (vc : VramClass)
+    (st : St) (ho : Outside st) (ev : Str → Nat) (k : List Line)
+    (hfs : ∀ fs, vc.fixedVram = none → vc.fixedSymbol = some fs → lookupLast fs st.syms = some (.num (ev fs)))
+    (hfo : vc.fixedVram = none → vc.fixedSymbol = none → ∀ o ∈ vc.followsClasses,
+      lookupLast (cx.d.settings.style.classEnd o) st.syms = some (.num (ev (cx.d.settings.style.classEnd o)))) :
+    lookupLast (cx.d.settings.style.classEnd cname) (execK objs st (classIntro cx cname vc) k).syms = some (.num 0) ∧
+    lookupLast (cx.d.settings.style.classStart cname) (execK objs st (classIntro cx cname vc) k).syms = some (.num
+      (match vc.fixedVram with
+       | some v => v
+       | none => match vc.fixedSymbol with
+         | some fs => ev fs
+         | none => (vc.followsClasses.map cx.d.settings.style.classEnd).foldl (fun m o => max m (ev o)) 0)) := by
+  have h := class_intro_image objs cx cname vc st ho ev k hfs hfo
+  exact ⟨h.2.2.2.1, h.2.2.2.2⟩
+
+open Ld in
+/-- **C10, image clause "every member segment starts at the class start"**. -/
+theorem image_member_starts_at_class_start (objs : List InSec) (cx : Ctx) (seg : Segment) (alloc noload : List Line) (c : Str)
+    (hc : segAddr cx seg = some (cx.d.settings.style.classStart c))
+    (ha : writeSegment cx seg seg.allocSections false = .ok alloc)
+    (hn : writeSegment cx seg seg.noloadSections true = .ok noload)
+    (hne : seg.allocSections ≠ []) (hsy : cx.emitSecSyms = true)
+    (st : St) (ho : Outside st) (r : Nat) (hr : lookupLast Ld.romPos st.syms = some (.num r))
+    (v : Nat) (hv : lookupLast (cx.d.settings.style.classStart c) st.syms = some (.num v)) (k : List Line) :
+    ∃ (aE al : Nat) (lmaV : Option Nat),
+      (⟨c!"." ++ seg.name, v, aE - v, lmaV, false, al⟩ : OutSec) ∈ (execK objs st (segmentLines cx seg [] alloc noload) k).secs :=
+  member_starts_at_class objs cx seg alloc noload c hc ha hn hne hsy st ho r hr v hv k
+
+open Ld in
+/-- **C10, image clause for the class end**: behind each emitted member the class end symbol
+is the maximum of its previous value and the member's VRAM end — over all members, the largest
+VRAM end. -/
+theorem image_class_end_accumulates (objs : List InSec) (cx : Ctx) (seg : Segment) (c : Str) (hc : seg.vramClass = some c)
+    (st : St) (ho : Outside st) (r0 : Nat) (hr : lookupLast Ld.romPos st.syms = some (.num r0))
+    (e0 : Nat) (he : lookupLast (cx.d.settings.style.classEnd c) st.syms = some (.num e0)) (k : List Line) :
+    lookupLast (cx.d.settings.style.classEnd c) (execK objs st (segTail cx seg) k).syms
+      = some (.num (max e0 (alignO seg.segmentEndAlign st.dot))) :=
+  tail_class_end objs cx seg c hc st ho r0 hr e0 he k
 
 end Slinky.C10
